@@ -190,8 +190,13 @@ func c06Run(c *mon.Ctx) {
 		}
 		if n == 63 {
 			run(s)
-		} else if _, err := rule.Build(s.Rule()); err == nil {
-			c.Violation("too-many-fields-accepted", "Build accepted 64 filters + a key (65 slots)", s)
+		} else {
+			var err error
+			if p, st := mon.Try(func() { _, err = rule.Build(s.Rule()) }); p != nil {
+				c.Violation("panic", fmt.Sprintf("Build panicked for 64 filters + a key: %v\n%s", p, st), s)
+			} else if err == nil {
+				c.Violation("too-many-fields-accepted", "Build accepted 64 filters + a key (65 slots)", s)
+			}
 		}
 	}
 	// (4b) values that do not fit the 32-bit value slot cannot be encoded as asked: they must be refused
